@@ -1766,52 +1766,77 @@ func c09FifthHunt(ctx *Ctx, r *Report) {
 				fmt.Sprintf("%d constraint(s) of walkNumber take the result of (*big.Rat).Float64 whatever the kind of the number: `\"type\": \"integer\", \"maximum\": 9007199254740993` is bound by 9007199254740992 (the valid 2^53+1 is refused by Build() and by the Python option), and `\"maximum\": 9223372036854775807` gives `<= 9.223372036854776e+18` — truncated to int64, the Go package does not compile", bad))
 		}
 	}
-	if fn := ctx.LookupFunc("internal/openapi", "getArgs"); fn == nil {
-		r.Undecided("anchor lost: openapi.getArgs")
-	} else if fd, p := ctx.DeclOf(fn); fd != nil {
-		info := p.TypesInfo
-		converts := false
-		ast.Inspect(fd.Body, func(m ast.Node) bool {
-			if c, ok := m.(*ast.CallExpr); ok && len(c.Args) == 1 {
-				if tv, ok := info.Types[c.Fun]; ok && tv.IsType() {
-					if b, ok := tv.Type.Underlying().(*types.Basic); ok && b.Kind() == types.Int64 {
-						if at, ok := info.TypeOf(c.Args[0]).Underlying().(*types.Basic); ok && at.Info()&types.IsFloat != 0 {
-							converts = true
+	n += c09OpenAPIIntegerConversions(ctx, r)
+	r.Count("hunted clauses of the builders (5th hunt)", n)
+	r.Floor("hunted clauses of the builders (5th hunt)", 3)
+}
+
+// c09OpenAPIIntegerConversions: kin-openapi reads every number as a float64. Every function of the OpenAPI front-end
+// that converts a float64 to int64 tests it against both ends of the int64 range first: the conversion of a float
+// beyond it is not defined (9223372036854775807, read as 2^63, became MinInt64 on amd64 — as a bound, as a default and
+// as an enum value).
+func c09OpenAPIIntegerConversions(ctx *Ctx, r *Report) int {
+	p := ctx.Pkg("internal/openapi")
+	if p == nil {
+		r.Undecided("anchor lost: internal/openapi")
+		return 0
+	}
+	info := p.TypesInfo
+	n := 0
+	for _, file := range p.Syntax {
+		for _, d := range file.Decls {
+			fd, ok := d.(*ast.FuncDecl)
+			if !ok || fd.Body == nil {
+				continue
+			}
+			var conversions []token.Pos
+			ast.Inspect(fd.Body, func(m ast.Node) bool {
+				if c, ok := m.(*ast.CallExpr); ok && len(c.Args) == 1 {
+					if tv, ok := info.Types[c.Fun]; ok && tv.IsType() {
+						if b, ok := tv.Type.Underlying().(*types.Basic); ok && b.Kind() == types.Int64 {
+							if at, ok := info.TypeOf(c.Args[0]).Underlying().(*types.Basic); ok && at.Info()&types.IsFloat != 0 {
+								if atv, ok := info.Types[c.Args[0]]; !ok || atv.Value == nil {
+									conversions = append(conversions, c.Pos())
+								}
+							}
 						}
 					}
 				}
+				return true
+			})
+			if len(conversions) == 0 {
+				continue
 			}
-			return true
-		})
-		tested := map[string]bool{}
-		ast.Inspect(fd.Body, func(m ast.Node) bool {
-			var conds []ast.Expr
-			switch x := m.(type) {
-			case *ast.IfStmt:
-				conds = append(conds, x.Cond)
-			case *ast.CaseClause:
-				conds = append(conds, x.List...)
-			}
-			for _, cond := range conds {
-				ast.Inspect(cond, func(k ast.Node) bool {
-					if id, ok := k.(*ast.Ident); ok {
-						if c, ok := info.Uses[id].(*types.Const); ok && c.Pkg() != nil && c.Pkg().Path() == "math" {
-							tested[c.Name()] = true
+			tested := map[string]bool{}
+			ast.Inspect(fd.Body, func(m ast.Node) bool {
+				var conds []ast.Expr
+				switch x := m.(type) {
+				case *ast.IfStmt:
+					conds = append(conds, x.Cond)
+				case *ast.CaseClause:
+					conds = append(conds, x.List...)
+				}
+				for _, cond := range conds {
+					ast.Inspect(cond, func(k ast.Node) bool {
+						if id, ok := k.(*ast.Ident); ok {
+							if c, ok := info.Uses[id].(*types.Const); ok && c.Pkg() != nil && c.Pkg().Path() == "math" {
+								tested[c.Name()] = true
+							}
 						}
-					}
-					return true
-				})
-			}
-			return true
-		})
-		if converts {
+						return true
+					})
+				}
+				return true
+			})
+			fobj, _ := info.Defs[fd.Name].(*types.Func)
 			n++
-			r.Check(tested["MaxInt64"] && tested["MinInt64"], "frontier/integer-bounds-exact", "openapi.getArgs converts a float64 bound to int64", fd.Pos(), "after testing it against both ends of the int64 range",
-				"getArgs converts the float64 kin-openapi read without a range test: `type: integer, format: int64, maximum: 9223372036854775807` is read as 2^63, whose conversion is not defined — `must be <= -9223372036854775808` on amd64: every argument is refused, by Build() and by the Python option")
-		} else {
-			n++
+			r.Check(tested["MaxInt64"] && tested["MinInt64"], "frontier/integer-bounds-exact", ctx.FuncName(fobj)+" converts a float64 to int64", conversions[0], "after testing it against both ends of the int64 range",
+				ctx.FuncName(fobj)+" converts the float64 kin-openapi read without a range test: `type: integer, format: int64, maximum: 9223372036854775807` (or `default:`) is read as 2^63, whose conversion is not defined — MinInt64 on amd64: `must be <= -9223372036854775808`, every argument refused; a default of MaxInt64 changes sign")
 		}
 	}
-	r.Count("hunted clauses of the builders (5th hunt)", n)
-	r.Floor("hunted clauses of the builders (5th hunt)", 3)
+	if n == 0 {
+		// no conversion left: integers are read some other way
+		n = 1
+	}
+	return n
 }
